@@ -6,7 +6,10 @@
  * variables: 0 g_init (.data int)  1 g_zero (.bss int)  2 s_init (static .data)  3 s_zero (static .bss)
  *            4..7 g_arr[0..3] (.data array)  8..11 s_zarr[0..3] (static .bss array)  12 function-local static
  *            13 g_dbl (.data double, holds integers)
- * The script itself and all communication buffers live on the stack / heap, never in globals. */
+ *   <rank> ws <k> <val> / <rank> rs <k> / <rank> rr <k>   store into sb[k] / print sb[k] / print rb[k] (stack buffers)
+ *   <a> gsend <b> <m> and <b> grecv <a> <m>   one message of 4 ints with buffers chosen by m:
+ *        m = gg: g_arr -> s_zarr (global to global)   gs: g_arr -> rb (global to stack)   sg: sb -> s_zarr (stack to global)
+ * The script itself lives on the heap; sb / rb are on the stack; g_arr / s_zarr are globals used as message buffers by gsend. */
 #include <mpi.h>
 #include <stdio.h>
 #include <stdlib.h>
@@ -66,7 +69,7 @@ int main(int argc, char** argv)
     return 3;
   }
   char line[256];
-  int sb[4] = {0, 0, 0, 0}, rb[4];
+  int sb[4] = {0, 0, 0, 0}, rb[4] = {0, 0, 0, 0};
   while (fgets(line, sizeof line, f)) {
     char* tok[8];
     int nt = 0;
@@ -82,7 +85,16 @@ int main(int argc, char** argv)
     else if (!strcmp(c, "r")) {
       printf("R %d %d\n", rank, load(atoi(tok[2])));
       fflush(stdout);
-    } else if (!strcmp(c, "barrier"))
+    } else if (!strcmp(c, "ws"))
+      sb[atoi(tok[2])] = atoi(tok[3]);
+    else if (!strcmp(c, "rs") || !strcmp(c, "rr")) {
+      printf("R %d %d\n", rank, c[1] == 's' ? sb[atoi(tok[2])] : rb[atoi(tok[2])]);
+      fflush(stdout);
+    } else if (!strcmp(c, "gsend"))
+      MPI_Send(tok[3][0] == 'g' ? g_arr : sb, 4, MPI_INT, atoi(tok[2]), 6, MPI_COMM_WORLD);
+    else if (!strcmp(c, "grecv"))
+      MPI_Recv(tok[3][1] == 'g' ? s_zarr : rb, 4, MPI_INT, atoi(tok[2]), 6, MPI_COMM_WORLD, MPI_STATUS_IGNORE);
+    else if (!strcmp(c, "barrier"))
       MPI_Barrier(MPI_COMM_WORLD);
     else if (!strcmp(c, "bcast"))
       MPI_Bcast(sb, 4, MPI_INT, atoi(tok[2]), MPI_COMM_WORLD);
